@@ -109,7 +109,14 @@ def lrRemaining (pos end_ : UInt64) : UInt64 := satSub end_ pos
 /-- `LimitReader::check_has_bytes`. -/
 def lrCheck (pos end_ len : UInt64) : Bool := len ≤ lrRemaining pos end_
 
-/-- `LimitReader::new(inner, len)`: `end = position.saturating_add(min(len, inner.remaining()))`. -/
+/-- `LimitReader::new(inner, len)`: `end = position.saturating_add(min(len, inner.remaining()))`.
+
+NOTE (known-length assumption): `vrRemaining` models a `ValueReader` whose constructor determined
+the stream length (`stream_len`: seek to `End(0)` and back) — always the case for `Cursor` buffers
+and regular files.  If that seek fails the real reader falls back to `len = u64::MAX`, `remaining()`
+is then ≈ `u64::MAX` and this clamp does nothing: the decoder still terminates (reads hit the real
+end of stream, skips are `i64::try_from`-checked so they only move forward), but T2/T3 — which rest on
+`end ≤ |d|` — are not claimed for that fallback path.  It is outside this model. -/
 def lrNew (d : Bytes) (pos len : UInt64) : UInt64 := satAdd pos (minU len (vrRemaining d pos))
 
 /-- `LimitReader::sub_limit(len)`: checked, then `end = position + len`. -/
@@ -407,7 +414,114 @@ def decodeFields (S : Schema) (d : Bytes) :
 def parse (S : Schema) (d : Bytes) (root : Nat) : Except Err (List (UInt64 × Val) × UInt64) :=
   decodeFields S d (d.size + 1) 0 root 0 (lrNew d 0 (UInt64.ofNat (UInt64.size - 1))) []
 
-/-! ## The arithmetic of the code before the fix (for negation witnesses) -/
+/-! ## Cost semantics (work counter)
+
+The work the decoder does, in the unit the `cfg(rten_verif)` hook `rten_onnx::verif::DECODE_STEPS`
+counts on the real code: one step per primitive `LimitReader` read (`read_varint`, `read_i32`,
+`read_i64` — tag, scalar value, length prefix, packed element, including the failing read that ends
+a message or a packed run) plus one step per byte of a `string`/`bytes` buffer that is allocated and
+filled.  (`skip` is a constant-time seek and costs nothing beyond its header reads.) -/
+
+/-- Reads made for the value part of `Fields::next` (wire types 0, 1, 2, 5 read something). -/
+def readValueN (wt : UInt64) : Nat := if wt = 0 ∨ wt = 1 ∨ wt = 2 ∨ wt = 5 then 1 else 0
+
+/-- Reads made by one `Fields::next` call. -/
+def nextFieldN (d : Bytes) (pos end_ : UInt64) : Nat :=
+  match lrReadVarint d pos end_ with
+  | .ok tag _ => 1 + readValueN (tag &&& 7)
+  | _ => 1
+
+/-- Reads made by the packed varint iterator (same recursion as `packedVarints`). -/
+def packedVarintsN (d : Bytes) : Nat → UInt64 → UInt64 → Nat
+  | 0, _, _ => 0
+  | k + 1, pos, end_ =>
+    match lrReadVarint d pos end_ with
+    | .ok _ p => 1 + packedVarintsN d k p end_
+    | _ => 1
+
+/-- Reads made by the packed fixed-width iterator (same recursion as `packedFixed`). -/
+def packedFixedN (d : Bytes) (n : UInt64) : Nat → UInt64 → UInt64 → Nat
+  | 0, _, _ => 0
+  | k + 1, pos, end_ =>
+    match lrReadFixed d pos end_ n with
+    | .ok p => 1 + packedFixedN d n k p end_
+    | .error _ => 1
+
+/-- Work done by a non-message arm on the field body (`consumeField`). -/
+def consumeSteps (d : Bytes) (fuel : Nat) (k : Kind) (fv : FieldValue) (p fend : UInt64) : Nat :=
+  match fv with
+  | .len l =>
+    match k with
+    | .str | .bytes =>
+      match lrReadBytes d p fend l with
+      | .ok _ => l.toNat
+      | .error _ => 0
+    | .packedI32 | .packedI64 | .packedU64 =>
+      match lrSub p fend l with
+      | .ok e2 => packedVarintsN d fuel p e2
+      | .error _ => 0
+    | .packedF32 =>
+      match lrSub p fend l with
+      | .ok e2 => packedFixedN d 4 fuel p e2
+      | .error _ => 0
+    | .packedF64 =>
+      match lrSub p fend l with
+      | .ok e2 => packedFixedN d 8 fuel p e2
+      | .error _ => 0
+    | _ => 0
+  | _ => 0
+
+/-- Result of an instrumented run: the decoder's result, the work counter, and the largest nesting
+depth of any `decodeFields` invocation in the run's call tree. -/
+structure Counted where
+  res : Except Err (List (UInt64 × Val) × UInt64)
+  steps : Nat
+  deepest : Nat
+
+/-- `decodeFields` instrumented with the work counter and the deepest nesting level reached.
+`c38_counted_refines` shows `.res` is exactly `decodeFields`. -/
+def decodeFieldsS (S : Schema) (d : Bytes) :
+    Nat → Nat → Nat → UInt64 → UInt64 → List (UInt64 × Val) → Counted
+  | 0, depth, _, _, _, _ => ⟨.error .fuel, 0, depth⟩
+  | fuel + 1, depth, m, pos, end_, acc =>
+    let n0 := nextFieldN d pos end_
+    match nextField d pos end_ with
+    | .done p => ⟨.ok (acc.reverse, p), n0, depth⟩
+    | .err e => ⟨.error e, n0, depth⟩
+    | .field num fv p fend =>
+      match (S.lookup m num).kind with
+      | .msg child =>
+        match fv with
+        | .len l =>
+          if depth ≥ maxDepth then ⟨.error .tooDeep, n0, depth⟩ else
+          match lrSub p fend l with
+          | .error e => ⟨.error e, n0, depth⟩
+          | .ok cend =>
+            let c1 := decodeFieldsS S d fuel (depth + 1) child p cend []
+            match c1.res with
+            | .error e => ⟨.error e, n0 + c1.steps, max depth c1.deepest⟩
+            | .ok (sub, p2) =>
+              let c2 := decodeFieldsS S d fuel depth m p2 end_ ((num, .msg sub) :: acc)
+              ⟨c2.res, n0 + c1.steps + c2.steps, max c1.deepest c2.deepest⟩
+        | _ => ⟨.error .typeMismatch, n0, depth⟩
+      | k =>
+        let nb := consumeSteps d fuel k fv p fend
+        match consumeField d fuel k fv p fend with
+        | .error e => ⟨.error e, n0 + nb, depth⟩
+        | .ok (v, p2) =>
+          let c2 := decodeFieldsS S d fuel depth m p2 end_ (pushVal acc num v)
+          ⟨c2.res, n0 + nb + c2.steps, c2.deepest⟩
+
+/-- Instrumented `parse`. -/
+def parseS (S : Schema) (d : Bytes) (root : Nat) : Counted :=
+  decodeFieldsS S d (d.size + 1) 0 root 0 (lrNew d 0 (UInt64.ofNat (UInt64.size - 1))) []
+
+/-! ## Fragments of the arithmetic of the code before the fix
+
+These are *illustrations*, not a model of the old decoder: isolated expressions of the old
+`LimitReader`/`ValueReader::skip`, and a one-state abstraction of the old `read_varint` outer loop.
+The `decide`d facts about them in `Props/C38.lean` explain the observed failures; the evidence that
+the old code hangs / accepts over-long fields is the harness run against the pre-fix tree. -/
 
 /-- Old `LimitReader::sub_limit` / `new`: `end = position + len`, wrapping. -/
 def oldSubEnd (pos len : UInt64) : UInt64 := pos + len
